@@ -88,7 +88,9 @@ func c19Scenario(c *wk.Ctx, idx int64, r *rand.Rand) (nontrivial string, viol bo
 		}
 		p.sendErr = r.Intn(10) == 0
 		p.matchAt = -1
-		switch r.Intn(4) {
+		switch r.Intn(5) {
+		case 4:
+			p.matchAt = 0 // the peer answers before the sender is back from its write: reply parsed inside WriteTo
 		case 0:
 			p.matchAt = p.eff / 2
 		case 1:
@@ -125,6 +127,7 @@ func c19Scenario(c *wk.Ctx, idx int64, r *rand.Rand) (nontrivial string, viol bo
 		panic(fmt.Sprintf("HARNESS BUG: %d waiters left from the previous scenario", w))
 	}
 	t0 := time.Now()
+	immediate := 0
 	var wg sync.WaitGroup
 	var mu sync.Mutex
 	// start the pings one after the other so that an injected send error hits the intended one
@@ -132,6 +135,23 @@ func c19Scenario(c *wk.Ctx, idx int64, r *rand.Rand) (nontrivial string, viol bo
 		p := p
 		if p.sendErr {
 			rec.FailNext(1, mon.ErrInjected)
+		}
+		rec.AfterWrite(nil)
+		if p.matchAt == 0 {
+			rec.AfterWrite(func(f mon.TxFrame) {
+				d := refdec.Decode(f.Data)
+				if d.Err || d.DstIP != p.dst || (d.PayloadID != refdec.PICMP4 && d.PayloadID != refdec.PICMP6) {
+					return
+				}
+				off := d.OffIP4 + 20
+				if d.OffIP6 != 0 {
+					off = d.OffIP6 + 40
+				}
+				if icmp := f.Data[off:]; icmp[0] == 8 || icmp[0] == 128 {
+					s.Parse(echoFrame(nic, p, 0, 129, uint16(icmp[4])<<8|uint16(icmp[5]), false))
+					immediate++
+				}
+			})
 		}
 		wg.Add(1)
 		go func() {
@@ -148,6 +168,8 @@ func c19Scenario(c *wk.Ctx, idx int64, r *rand.Rand) (nontrivial string, viol bo
 		}()
 		synctest.Wait()
 	}
+	rec.AfterWrite(nil)
+	c.Obs("replies_inside_write", int64(immediate))
 	// identifiers from the echo requests on the wire, matched by destination
 	ids := map[uint16]int{}
 	for _, f := range rec.Take() {
@@ -194,7 +216,7 @@ func c19Scenario(c *wk.Ctx, idx int64, r *rand.Rand) (nontrivial string, viol bo
 		if !p.have {
 			continue
 		}
-		if p.matchAt >= 0 {
+		if p.matchAt > 0 {
 			arr = append(arr, arrival{p.matchAt, echoFrame(nic, p, 0, 129, p.id, false)})
 		}
 		for _, x := range p.extras {
@@ -254,6 +276,9 @@ func c19Scenario(c *wk.Ctx, idx int64, r *rand.Rand) (nontrivial string, viol bo
 			if p.matchAt > p.eff {
 				kinds["late-reply"] = true
 			}
+		}
+		if p.matchAt == 0 && !p.sendErr {
+			kinds["reply-inside-write"] = true
 		}
 		for _, x := range p.extras {
 			kinds[x.kind] = true
